@@ -231,8 +231,13 @@ def write_evidence(mod, tier, seed, agg, wall, status, reasons):
         'assumptions': list(mod.ASSUMPTIONS), 'wall_s': round(wall, 2),
         'violations': int(sum(agg['viol_counts'].values())),
     }
-    os.makedirs(os.path.join(VERIF, 'evidence'), exist_ok=True)
-    path = os.path.join(VERIF, 'evidence', mod.PROP + '.json')
+    # VERIF_EVIDENCE_DIR: only used when a scratch copy of the repository is
+    # under test (self-tests on seeded changes) so that the registered
+    # evidence files always describe /repo itself
+    evdir = os.environ.get('VERIF_EVIDENCE_DIR') or os.path.join(VERIF,
+                                                                 'evidence')
+    os.makedirs(evdir, exist_ok=True)
+    path = os.path.join(evdir, mod.PROP + '.json')
     tmp = path + '.tmp'
     with open(tmp, 'w') as f:
         f.write(dumps(ev, indent=1))
@@ -388,7 +393,8 @@ def main(argv=None):
     if status == 'violated':
         rc = 1
         done = set()
-        rdir = os.path.join(VERIF, 'replays', prop)
+        rdir = os.path.join(os.environ.get('VERIF_REPLAY_DIR') or
+                            os.path.join(VERIF, 'replays'), prop)
         os.makedirs(rdir, exist_ok=True)
         for v in agg['violations']:
             kind = v['violation']['kind']
@@ -418,7 +424,9 @@ def main(argv=None):
           'distinct=%d known=%d wall=%.1fs evidence=%s'
           % (status.upper(), prop, a.tier, seed, agg['cases'],
              agg['evaluations'], len(agg['digests']),
-             sum(agg['known'].values()), wall, os.path.relpath(path, VERIF)))
+             sum(agg['known'].values()), wall,
+             os.path.relpath(path, VERIF) if path.startswith(VERIF)
+             else path))
     return rc
 
 
